@@ -77,6 +77,10 @@ def call_tomtom(spec):
     import numba
     from tangermeme.tools.tomtom import tomtom
     Qs, Ts = c14.arrays(spec)
+    if spec.get('Qdt'):
+        Qs = [q.astype(dt) for q, dt in zip(Qs, spec['Qdt'])]
+    if spec.get('Tdt'):
+        Ts = [t.astype(dt) for t, dt in zip(Ts, spec['Tdt'])]
     kw = dict(n_score_bins=spec['nb'], n_target_bins=spec['ntb'], reverse_complement=spec['rc'],
               n_cache=2 * spec['nb'] + 10, n_nearest=spec['nn'])
     if spec.get('threads'):
@@ -170,7 +174,7 @@ def worker_call(spec):
 
 
 def base_key(inp):
-    return json.dumps([inp['Q'], inp['T'], inp['nb'], inp['rc'], inp['ntb']])
+    return json.dumps([inp['Q'], inp['T'], inp['nb'], inp['rc'], inp['ntb'], inp.get('Qdt'), inp.get('Tdt')])
 
 
 def reference(inp):
@@ -184,9 +188,10 @@ def reference(inp):
         P = c14.prep(Qs, Ts, inp['rc'], inp['ntb'])
         c14.stage(P, inp['nb'])                    # raises ZeroDivisionError on degenerate bases
         ref = []
-        for q in inp['Q']:
+        for qi, q in enumerate(inp['Q']):
             r = call_tomtom(dict(Q=[q], T=inp['T'], nb=inp['nb'], rc=inp['rc'], ntb=inp['ntb'],
-                                 threads=1, chunk=0, nn=None))
+                                 threads=1, chunk=0, nn=None, Tdt=inp.get('Tdt'),
+                                 Qdt=[inp['Qdt'][qi]] if inp.get('Qdt') else None))
             ref.append(r['rows'][0])
     except ZeroDivisionError:
         ref = None
@@ -202,7 +207,8 @@ def run_impl(inp):
         if ref is None:
             return {'ok': False, 'why': 'degenerate base'}
         spec = dict(Q=[inp['Q'][i] for i in inp['idxs']], T=inp['T'], nb=inp['nb'], rc=inp['rc'], ntb=inp['ntb'],
-                    threads=inp['threads'], chunk=inp['chunk'], nn=inp['nn'], api=inp.get('api', 'tomtom'))
+                    threads=inp['threads'], chunk=inp['chunk'], nn=inp['nn'], api=inp.get('api', 'tomtom'),
+                    Tdt=inp.get('Tdt'), Qdt=[inp['Qdt'][i] for i in inp['idxs']] if inp.get('Qdt') else None)
         if inp.get('poison') == 'B':
             r = worker_call(spec)
             if 'error' in r:
@@ -260,8 +266,8 @@ def hist_key(inp, out):
     if not out['ok']:
         return 'out-of-scope: ' + out['why'][:40]
     t = inp['threads']
-    return '%s/threads%s/%s/poison%s%s%s%s' % (
-        inp.get('api', 'tomtom'), '1' if t == 1 else ('2-4' if t <= 4 else ('5-8' if t <= 8 else '9-16')),
+    return '%s%s/threads%s/%s/poison%s%s%s%s' % (
+        inp.get('api', 'tomtom'), '/mixed-dtype' if inp.get('Qdt') else '', '1' if t == 1 else ('2-4' if t <= 4 else ('5-8' if t <= 8 else '9-16')),
         'full' if inp['nn'] is None else 'nn', inp.get('poison', 'A'),
         '' if out.get('hook') else '/HOOK-ABSENT', '/rc' if inp['rc'] else '', '/hash' if inp['ntb'] else '')
 
@@ -362,6 +368,54 @@ def annot_variants(rng, base, n_random):
                    nn=None, poison='A', api='tomtom')
 
 
+def gen_dtype_base(rng):
+    """query lists of mixed dtypes: int8 / int64 one-hot (what utils.one_hot_encode returns), float32 PWMs
+    on the dyadic grid k/16 (so that their squares and column norms are exact in float32 as well: the
+    unchanged code - numpy.concatenate promotes to the common dtype - then gives bit-identical rows whether
+    the query is alone in its own dtype or promoted inside a list), float64 PWMs; targets of mixed dtypes
+    (their list, hence their promoted dtype, is the same in the reference and in every variant)"""
+    rs = c14.np_rng(rng)
+    eye = numpy.eye(4)
+
+    def onehot(L):
+        return eye[rs.randint(4, size=L)].tolist()
+
+    def dyadic(L):
+        p = numpy.round(rs.dirichlet([0.4] * 4, size=L) * 16) / 16
+        p[p.sum(1) == 0] = [0.25, 0.25, 0.25, 0.25]
+        return p.tolist()
+    kinds = [('int8', onehot), ('float64', lambda L: c14.pwm(rs, L, 0.4, 0)), ('float32', dyadic),
+             ('int64', onehot), ('float64', lambda L: c14.pwm(rs, L, 1.0, 0))]
+    rng.shuffle(kinds)
+    Q, Qdt = [], []
+    for dt, f in kinds:
+        Q.append(f(rng.choice([3, 5, 6, 8, 9, 12])))
+        Qdt.append(dt)
+    nT = rng.randint(4, 7)
+    T = [c14.pwm(rs, rng.choice([3, 4, 6, 9, 12]), 0.4, 0) for _ in range(nT)]
+    Tdt = ['float64'] * nT
+    Tdt[0] = 'float32'
+    T[1] = onehot(rng.choice([4, 7]))
+    Tdt[1] = 'int8'
+    return {'Q': Q, 'Qdt': Qdt, 'T': T, 'Tdt': Tdt, 'nb': rng.choice([20, 50, 100]),
+            'rc': rng.random() < 0.5, 'ntb': 100 if rng.random() < 0.3 else None}
+
+
+def dtype_variants(rng, base, n_extra):
+    """every ordered pair (so each dtype comes first in front of each other one), plus longer lists"""
+    import itertools
+    k = len(base['Q'])
+    lists = [list(p) for p in itertools.permutations(range(k), 2)]
+    for _ in range(n_extra):
+        lists.append(rng.sample(range(k), rng.randint(3, k)))
+    lists.append(list(range(k)))
+    lists.append(list(range(k))[::-1])
+    nT = len(base['T'])
+    for idxs in lists:
+        yield dict(base, kind='variant', idxs=idxs, threads=rng.choice([1, 2, 4, 16]), chunk=0,
+                   nn=None if rng.random() < 0.7 else rng.randint(1, nT), poison='A', api='tomtom')
+
+
 def variants(rng, base, n_random, threads_all):
     k = len(base['Q'])
     longest = max(range(k), key=lambda i: len(base['Q'][i]))
@@ -389,6 +443,10 @@ def generate(tier, rng):
     quick = tier != 'thorough'
     start_worker()
     n_bases, n_zero, n_oh, n_random = (7, 2, 2, 6) if quick else (16, 5, 4, 20)
+    for _ in range(2 if quick else 6):
+        base = gen_dtype_base(rng)
+        for v in dtype_variants(rng, base, 4 if quick else 12):
+            yield v
     for _ in range(2 if quick else 8):
         base = gen_annot_base(rng)
         for v in annot_variants(rng, base, 2 if quick else 8):
